@@ -1,22 +1,38 @@
 /-
-Reference semantics R of structure views — the scalar / presence / size core, in Lean
-(round 2; until now R existed only in Python, harness/lib/embref.py).
+Reference semantics R of structure views, in Lean (round 2: flat byte structures; round 3: nested
+structures, `bits` containers with sub-byte fields, aliases, array element facts).
 
-Written from doc/language-reference.md ("Structs", "Field location", "Conditional fields",
-"Virtual fields", "[requires]") and doc/cpp-reference.md (what is readable when), for *flat* byte
-structures: physical `UInt`/`Int` fields at possibly dynamic offsets, conditional fields, virtual
-fields, runtime parameters, `[requires]` on fields.  R is declarative: `RFact` is the **least set
-of facts** closed under the documented rules — there is no fuel, no evaluation order and no
-storage model in it:
+Written from doc/language-reference.md ("Structs", "bits", "Field location", "Conditional
+fields", "Virtual fields", "Aliases", "Arrays", "[requires]") and doc/cpp-reference.md (what is
+readable when).  R is declarative: `RFact m w` is the **least set of facts** about the view `w`
+(a structure definition, maybe-known parameter values, and a *window*: the bytes that are there,
+or the number a `bits` container holds) closed under the documented rules — there is no fuel, no
+evaluation order and no `GetOffsetStorage` in it:
 
-  pres    a field exists iff its condition holds: the fact `x is present = b` holds when the
-          condition evaluates to `b` from facts that hold;
-  scalar  a present physical field whose start `s ≥ 0` and size `z ≥ 0` are computable, which
-          has the size of its type and all of whose bytes `buf[s .. s+z)` are inside the buffer,
-          has the value its bytes denote in its byte order (two's complement for `Int`),
-          provided that value passes the field's `[requires]`;
-  virt    a virtual field has the value of its expression (D5 of embref: independently of its
-          own presence), provided it passes its `[requires]`.
+  pres     a field exists iff its condition holds: the fact `x is present = b` holds when the
+           condition evaluates to `b` from facts that hold;
+  scalar   a present physical field whose start `s ≥ 0` and size `z ≥ 0` are computable, which
+           has the size of its type and whose whole extent `[s, s+z)` is inside the window, has the
+           value its extent denotes — in a byte structure the bytes taken in the field's byte
+           order, in a `bits` container bits `[s, s+z)` of the container's number
+           (`Emboss.Scalar.Spec.bits`, the spec C02 is proved against) — decoded per type (two's
+           complement for `Int`, non-zero for `Flag`), provided that value passes `[requires]`;
+  virt     a virtual field has the value of its expression (D5 of embref: independently of its
+           own presence), provided it passes its `[requires]`;
+  sub      a present field of structure / `bits` type with computable location and arguments:
+           every fact of the *inner* structure over the field's sub-window (the bytes of the
+           extent that are there; for a `bits` type the number the extent's bytes denote, which
+           needs all of them) is a fact of the outer one, under the field's name;
+  nullsub  the accessor of a field can always be called (cpp-reference: it returns a view that is
+           not Ok when the field is absent or unreadable — embref D5/D6); what holds of the inner
+           structure *without any bytes and parameters* (constant virtual fields, constant
+           conditions) holds under the field's name;
+  alias    an alias that is present reads what its target reads;
+  count    a present array field with computable location whose whole extent is inside the
+           window (embref D2: the count is defined for complete arrays only) has
+           `size / element size` elements;
+  elem     element `i` of a present array of scalars, lying inside the field's extent
+           (`e·i + e ≤ size`), is decoded like a scalar field at `s + e·i`.
 
 Expressions (decision D1 of embref.py): a reference is unknown unless the corresponding fact
 holds; operators are strict in unknown-ness except `&&`, `||` ("even if the other argument
@@ -24,21 +40,34 @@ cannot be computed") and `?:` (condition + selected branch) — the operator tab
 shared with the model (it *is* the documented three-valued table).  The reference evaluates the
 *source* expression: the compiler's constant-folding annotations (`Expr.fold`) are ignored
 (`evalR` looks through them), which is why R is only a lower bound on knowledge for folded
-definitions (D8) and the refinement theorem is stated for fold-free ones.
+definitions (D8) and the refinement theorem is stated for definitions whose annotations are
+closed constants (`foldFree`; in particular fold-free ones).
 
 The size of a structure is `ViewSpec.size` (Spec/View.lean) over the extents R defines
 (`C01_size_is_max_end` relates the synthesised `$size_in_bytes` to it for every environment).
 -/
 import Emboss.Model.View
+import Emboss.Model.ViewFrag
+import Emboss.Spec.Scalar
 namespace Emboss.ViewRef
 open Emboss.View
 
-/-- What R can say about a structure over a buffer. -/
+/-- What R can say about a view. -/
 inductive Fact where
   /-- the field at `path` is readable and has value `v` -/
   | val (path : List String) (v : Val)
   /-- the presence of the field at `path` is known to be `b` -/
   | pres (path : List String) (b : Bool)
+  /-- the array field `x` has `n` elements -/
+  | count (x : String) (n : Nat)
+  /-- element `i` of the array field `x` is readable and has value `v` -/
+  | elem (x : String) (i : Nat) (v : Val)
+
+/-- a fact about the inner view, seen from the outer one through field `x` -/
+def Fact.under (x : String) : Fact → Option Fact
+  | .val p v => some (.val (x :: p) v)
+  | .pres p b => some (.pres (x :: p) b)
+  | _ => none
 
 /-- Number denoted by a byte string, least significant byte first. -/
 def leNumber (d : List Nat) : Nat := d.foldr (fun b acc => b % 256 + 256 * acc) 0
@@ -48,12 +77,42 @@ def number (bo : ByteOrder) (d : List Nat) : Nat :=
   | .be => leNumber d.reverse
   | _ => leNumber d
 
-/-- Value of an integer field of `bits` bits holding the unsigned number `raw`. -/
+/-- Value of a field of `bits` bits holding the unsigned number `raw`. -/
 def specDecode (k : ScalarKind) (bits : Nat) (raw : Nat) : Option Val :=
   match k with
   | .uint => some (.int raw)
   | .int => some (.int (if raw < 2 ^ (bits - 1) then (raw : Int) else (raw : Int) - (2 ^ bits : Nat)))
+  | .flag => some (.bool (raw != 0))
+  | .enum _ false => some (.int raw)
   | _ => none
+
+/-- The unsigned number the extent `[s, s+z)` of a window denotes for a field of `bits` bits:
+defined when the field has the size of its type and the whole extent is inside the window. -/
+def fieldRaw (st : Storage) (bo : ByteOrder) (s z bits : Nat) : Option Nat :=
+  match st with
+  | .bytes (some d) =>
+    if z * 8 = bits ∧ s + z ≤ d.length then some (number bo ((d.drop s).take z)) else none
+  | .bits (some x) n =>
+    if z = bits ∧ s + z ≤ n then some (Emboss.Scalar.Spec.bits s z x) else none
+  | _ => none
+
+/-- The window of a field of structure / `bits` type located at `[s, s+z)`: a byte structure in a
+byte structure sees the bytes of the extent that are there; a `bits` type in a byte structure
+holds the number its `bits/8` bytes denote in the field's byte order (all of them are needed);
+inside a `bits` container it holds bits `[s, s+z)` of the container. -/
+def window (st : Storage) (childIsBits : Bool) (bo : ByteOrder) (s z bits : Nat) : Storage :=
+  match st, childIsBits with
+  | .bytes none, false => .bytes none
+  | .bytes (some d), false => .bytes (some ((d.drop s).take z))
+  | .bytes d, true => .bits (fieldRaw (.bytes d) bo s z bits) bits
+  | .bits x n, _ => .bits (if s + z ≤ n then x.map (Emboss.Scalar.Spec.bits s z) else none) z
+
+/-- The whole extent `[s, s+z)` is inside a readable window (an empty extent always is). -/
+def extentIn (st : Storage) (s z : Nat) : Bool :=
+  match st with
+  | .bytes (some d) => decide (z = 0 ∨ s + z ≤ d.length)
+  | .bits (some _) n => decide (z = 0 ∨ s + z ≤ n)
+  | _ => false
 
 mutual
   /-- Value of a source expression under a partial assignment (`Env` reused as the record of
@@ -71,81 +130,136 @@ mutual
     | .cons e es => evalR ρ e :: evalRList ρ es
 end
 
+/-- constructor arguments of a parameterised type: all of them must be computable -/
+def evalArgsR (ρ : Env) : Exprs → Option (List Val)
+  | .nil => some []
+  | .cons e es =>
+    match evalR ρ e, evalArgsR ρ es with
+    | some v, some vs => some (v :: vs)
+    | _, _ => none
+
 /-- `[requires]` holds for the candidate value `v` (`this = v`). -/
 def requiresOk (ρ : Env) (req : Option Expr) (v : Val) : Prop :=
   ∀ r, req = some r → evalR { ρ with lv := some v } r = some (.bool true)
 
-/-- The least set of facts closed under the documented rules, for the structure `sd` with
-parameter values `ps` over the bytes `buf`.  In every rule `ρ` is *any* partial assignment all of
-whose entries are facts that hold (with the structure's parameters, and no `this`). -/
-inductive RFact (sd : StructDef) (ps : List Val) (buf : List Nat) : Fact → Prop
-  | pres {x : String} {f : Field} {b : Bool} (ρ : Env)
-      (hf : sd.field x = some f)
-      (hr : ∀ p v, ρ.read p = some v → RFact sd ps buf (.val p v))
-      (hh : ∀ p c, ρ.has p = some c → RFact sd ps buf (.pres p c))
-      (hp : ∀ n v, ρ.param n = some v → lookupParam sd.params ps n = some v)
+/-- The least set of facts closed under the documented rules, for the view `w` (structure
+`w.sd`, parameter values `w.params` if known, window `w.st`) in module `m`.  In every rule `ρ` is
+*any* partial assignment all of whose entries are facts that hold of `w` (with the view's
+parameters, and no `this`). -/
+inductive RFact (m : Module) : SView → Fact → Prop
+  | pres {w : SView} {x : String} {f : Field} {b : Bool} (ρ : Env)
+      (hf : w.sd.field x = some f)
+      (hr : ∀ p v, ρ.read p = some v → RFact m w (.val p v))
+      (hh : ∀ p c, ρ.has p = some c → RFact m w (.pres p c))
+      (hp : ∀ n v, ρ.param n = some v → w.param n = some v)
       (hl : ρ.lv = none)
       (he : evalR ρ f.cond = some (.bool b)) :
-      RFact sd ps buf (.pres [x] b)
-  | scalar {x : String} {f : Field} {start size : Expr} {k : ScalarKind} {bits : Nat}
-      {req : Option Expr} {bo : ByteOrder} {s z : Int} {v : Val} (ρ : Env)
-      (hf : sd.field x = some f)
+      RFact m w (.pres [x] b)
+  | scalar {w : SView} {x : String} {f : Field} {start size : Expr} {k : ScalarKind} {bits : Nat}
+      {req : Option Expr} {bo : ByteOrder} {s z : Int} {raw : Nat} {v : Val} (ρ : Env)
+      (hf : w.sd.field x = some f)
       (hk : f.kind = .phys start size (.scalar k bits req) bo)
-      (hpres : RFact sd ps buf (.pres [x] true))
-      (hr : ∀ p v, ρ.read p = some v → RFact sd ps buf (.val p v))
-      (hh : ∀ p c, ρ.has p = some c → RFact sd ps buf (.pres p c))
-      (hp : ∀ n v, ρ.param n = some v → lookupParam sd.params ps n = some v)
+      (hpres : RFact m w (.pres [x] true))
+      (hr : ∀ p v, ρ.read p = some v → RFact m w (.val p v))
+      (hh : ∀ p c, ρ.has p = some c → RFact m w (.pres p c))
+      (hp : ∀ n v, ρ.param n = some v → w.param n = some v)
       (hl : ρ.lv = none)
       (hs : evalR ρ start = some (.int s)) (hz : evalR ρ size = some (.int z))
       (hs0 : 0 ≤ s) (hz0 : 0 ≤ z)
-      (hsize : z.toNat * 8 = bits)
-      (hin : s.toNat + z.toNat ≤ buf.length)
-      (hv : specDecode k bits (number bo ((buf.drop s.toNat).take z.toNat)) = some v)
+      (hraw : fieldRaw w.st bo s.toNat z.toNat bits = some raw)
+      (hv : specDecode k bits raw = some v)
       (hreq : requiresOk ρ req v) :
-      RFact sd ps buf (.val [x] v)
-  | virt {x : String} {f : Field} {value : Expr} {req : Option Expr} {v : Val} (ρ : Env)
-      (hf : sd.field x = some f)
+      RFact m w (.val [x] v)
+  | virt {w : SView} {x : String} {f : Field} {value : Expr} {req : Option Expr} {v : Val} (ρ : Env)
+      (hf : w.sd.field x = some f)
       (hk : f.kind = .virt value req)
-      (hr : ∀ p v, ρ.read p = some v → RFact sd ps buf (.val p v))
-      (hh : ∀ p c, ρ.has p = some c → RFact sd ps buf (.pres p c))
-      (hp : ∀ n v, ρ.param n = some v → lookupParam sd.params ps n = some v)
+      (hr : ∀ p v, ρ.read p = some v → RFact m w (.val p v))
+      (hh : ∀ p c, ρ.has p = some c → RFact m w (.pres p c))
+      (hp : ∀ n v, ρ.param n = some v → w.param n = some v)
       (hl : ρ.lv = none)
       (hv : evalR ρ value = some v)
       (hreq : requiresOk ρ req v) :
-      RFact sd ps buf (.val [x] v)
+      RFact m w (.val [x] v)
+  | sub {w : SView} {x : String} {f : Field} {start size : Expr} {name : String} {bits : Nat}
+      {args : Exprs} {bo : ByteOrder} {sd' : StructDef} {s z : Int} {vs : List Val}
+      {inner outer : Fact} (ρ : Env)
+      (hf : w.sd.field x = some f)
+      (hk : f.kind = .phys start size (.struct name bits args) bo)
+      (hfind : m.find name = some sd')
+      (hpres : RFact m w (.pres [x] true))
+      (hr : ∀ p v, ρ.read p = some v → RFact m w (.val p v))
+      (hh : ∀ p c, ρ.has p = some c → RFact m w (.pres p c))
+      (hp : ∀ n v, ρ.param n = some v → w.param n = some v)
+      (hl : ρ.lv = none)
+      (hs : evalR ρ start = some (.int s)) (hz : evalR ρ size = some (.int z))
+      (hs0 : 0 ≤ s) (hz0 : 0 ≤ z)
+      (hargs : evalArgsR ρ args = some vs)
+      (hsub : RFact m { sd := sd', params := some vs,
+                        st := window w.st (sd'.unit != 8) bo s.toNat z.toNat bits } inner)
+      (hout : inner.under x = some outer) :
+      RFact m w outer
+  | nullsub {w : SView} {x : String} {f : Field} {start size : Expr} {name : String} {bits : Nat}
+      {args : Exprs} {bo : ByteOrder} {sd' : StructDef} {inner outer : Fact}
+      (hf : w.sd.field x = some f)
+      (hk : f.kind = .phys start size (.struct name bits args) bo)
+      (hfind : m.find name = some sd')
+      (hsub : RFact m (nullView sd') inner)
+      (hout : inner.under x = some outer) :
+      RFact m w outer
+  | aliasVal {w : SView} {x : String} {f : Field} {t rest : List String} {v : Val}
+      (hf : w.sd.field x = some f)
+      (hk : f.kind = .alias t)
+      (hpres : RFact m w (.pres [x] true))
+      (ht : RFact m w (.val (t ++ rest) v)) :
+      RFact m w (.val (x :: rest) v)
+  | aliasPres {w : SView} {x : String} {f : Field} {t : List String} {y : String} {ys : List String}
+      {c : Bool}
+      (hf : w.sd.field x = some f)
+      (hk : f.kind = .alias t)
+      (hpres : RFact m w (.pres [x] true))
+      (ht : RFact m w (.pres (t ++ y :: ys) c)) :
+      RFact m w (.pres (x :: y :: ys) c)
+  | count {w : SView} {x : String} {f : Field} {start size : Expr} {elem : PType} {es : Nat}
+      {bo : ByteOrder} {s z : Int} (ρ : Env)
+      (hf : w.sd.field x = some f)
+      (hk : f.kind = .phys start size (.array elem es) bo)
+      (hpres : RFact m w (.pres [x] true))
+      (hr : ∀ p v, ρ.read p = some v → RFact m w (.val p v))
+      (hh : ∀ p c, ρ.has p = some c → RFact m w (.pres p c))
+      (hp : ∀ n v, ρ.param n = some v → w.param n = some v)
+      (hl : ρ.lv = none)
+      (hs : evalR ρ start = some (.int s)) (hz : evalR ρ size = some (.int z))
+      (hs0 : 0 ≤ s) (hz0 : 0 ≤ z) (hes : 0 < es)
+      (hin : extentIn w.st s.toNat z.toNat = true) :
+      RFact m w (.count x (z.toNat / es))
+  | elem {w : SView} {x : String} {f : Field} {start size : Expr} {k : ScalarKind} {bits : Nat}
+      {req : Option Expr} {es : Nat} {bo : ByteOrder} {s z : Int} {i raw : Nat} {v : Val} (ρ : Env)
+      (hf : w.sd.field x = some f)
+      (hk : f.kind = .phys start size (.array (.scalar k bits req) es) bo)
+      (hpres : RFact m w (.pres [x] true))
+      (hr : ∀ p v, ρ.read p = some v → RFact m w (.val p v))
+      (hh : ∀ p c, ρ.has p = some c → RFact m w (.pres p c))
+      (hp : ∀ n v, ρ.param n = some v → w.param n = some v)
+      (hl : ρ.lv = none)
+      (hs : evalR ρ start = some (.int s)) (hz : evalR ρ size = some (.int z))
+      (hs0 : 0 ≤ s) (hz0 : 0 ≤ z)
+      (hi : es * i + es ≤ z.toNat)
+      (hraw : fieldRaw w.st bo (s.toNat + es * i) es bits = some raw)
+      (hv : specDecode k bits raw = some v)
+      (hreq : requiresOk ρ req v) :
+      RFact m w (.elem x i v)
 
-/-! ### the fragment -/
+/-! ### the fragment
 
-mutual
-  def foldFree : Expr → Bool
-    | .fold _ _ => false
-    | .op _ args => foldFreeList args
-    | _ => true
-  def foldFreeList : Exprs → Bool
-    | .nil => true
-    | .cons e es => foldFree e && foldFreeList es
-end
+The decidable predicates `refField` / `refStruct` / `refModule` (and `foldFree`, `okKind`,
+`sizeIsBits`) live in Model/ViewFrag.lean so that the driver can evaluate them on every real IR. -/
 
-def foldFreeOpt : Option Expr → Bool
-  | none => true
-  | some e => foldFree e
-
-/-- A field of the fragment: a `UInt`/`Int` of `bits > 0` bits whose size is the literal
-`bits / 8` (what the front end enforces for fixed-size types, `fieldWF`), or a virtual field;
-all expressions free of folding annotations. -/
-def flatField (f : Field) : Bool :=
-  foldFree f.cond &&
-  match f.kind with
-  | .phys start size (.scalar k bits req) _ =>
-    (k == .uint || k == .int) && decide (0 < bits) && foldFree start && foldFreeOpt req &&
-    (match size with
-     | .const (.int z) => decide (0 ≤ z) && z.toNat * 8 == bits
-     | _ => false)
-  | .virt value req => foldFree value && foldFreeOpt req
-  | _ => false
-
-def flatStruct (sd : StructDef) : Bool :=
-  sd.unit == 8 && sd.fields.all flatField
+/-- a view's window has the shape its structure addresses: bytes for a `struct`, a number for a
+`bits` -/
+def viewWF (w : SView) : Bool :=
+  match w.st with
+  | .bytes _ => w.sd.unit == 8
+  | .bits _ _ => w.sd.unit != 8
 
 /-! ### logical equality (C20) -/
 
@@ -154,13 +268,68 @@ def isPhys (f : Field) : Bool :=
   | .phys _ _ _ _ => true
   | _ => false
 
-/-- Two buffers are *logically equal* as views of `sd` (C20's statement): they agree on which
+/-- every physical field of the structure is a scalar (the structure may itself be nested
+anywhere, and may be a `bits` container) -/
+def scalarFields (sd : StructDef) : Bool :=
+  sd.fields.all (fun f =>
+    match f.kind with
+    | .phys _ _ (.scalar _ _ _) _ => true
+    | .phys _ _ _ _ => false
+    | _ => true)
+
+/-- Two views of the same structure are *logically equal* (C20's statement): they agree on which
 physical fields are present, and every present physical field reads equal — all as defined by
-the reference semantics.  Bytes no field covers, and virtual fields, play no role. -/
-def LogicallyEqual (sd : StructDef) (ps : List Val) (a b : List Nat) : Prop :=
-  ∀ f ∈ sd.fields, isPhys f = true →
-    ∃ c, RFact sd ps a (.pres [f.name] c) ∧ RFact sd ps b (.pres [f.name] c) ∧
-      (c = true → ∃ v, RFact sd ps a (.val [f.name] v) ∧ RFact sd ps b (.val [f.name] v))
+the reference semantics.  Bytes / bits no field covers, and virtual fields, play no role. -/
+def LogicallyEqual (m : Module) (wa wb : SView) : Prop :=
+  ∀ f ∈ wa.sd.fields, isPhys f = true →
+    ∃ c, RFact m wa (.pres [f.name] c) ∧ RFact m wb (.pres [f.name] c) ∧
+      (c = true → ∃ v, RFact m wa (.val [f.name] v) ∧ RFact m wb (.val [f.name] v))
+
+/-- `w'` is the view the reference assigns to the field `x` of structure / `bits` type of `w`
+(the view whose facts rule `sub` lifts): inner structure, argument values, sub-window. -/
+inductive SubViewR (m : Module) (w : SView) (x : String) : SView → Prop
+  | mk {f : Field} {start size : Expr} {name : String} {bits : Nat}
+      {args : Exprs} {bo : ByteOrder} {sd' : StructDef} {s z : Int} {vs : List Val} (ρ : Env)
+      (hf : w.sd.field x = some f)
+      (hk : f.kind = .phys start size (.struct name bits args) bo)
+      (hfind : m.find name = some sd')
+      (hr : ∀ p v, ρ.read p = some v → RFact m w (.val p v))
+      (hh : ∀ p c, ρ.has p = some c → RFact m w (.pres p c))
+      (hp : ∀ n v, ρ.param n = some v → w.param n = some v)
+      (hl : ρ.lv = none)
+      (hs : evalR ρ start = some (.int s)) (hz : evalR ρ size = some (.int z))
+      (hs0 : 0 ≤ s) (hz0 : 0 ≤ z)
+      (hargs : evalArgsR ρ args = some vs) :
+      SubViewR m w x { sd := sd', params := some vs,
+                       st := window w.st (sd'.unit != 8) bo s.toNat z.toNat bits }
+
+/-- the two views have the same parameter values (a structure without parameters trivially) -/
+def ParamsAgree (wa wb : SView) : Prop := wa.sd.params = [] ∨ wa.params = wb.params
+
+/-- **Logical equality, recursively** (C20's statement), to nesting depth `k`: two views of the
+same structure type agree on which physical fields are present, every present scalar field reads
+equal, and every present field of structure / `bits` type is — as the views R assigns to it on
+both sides — logically equal to depth `k - 1`.  Everything is stated over R-facts; bytes / bits no
+field covers, virtual fields and aliases play no role.  (Structure types do not nest recursively
+in Emboss, so a depth at least the nesting depth of the type is "logically equal".) -/
+def LogEq (m : Module) : Nat → SView → SView → Prop
+  | 0, _, _ => False
+  | k + 1, wa, wb =>
+    ParamsAgree wa wb ∧
+    ∀ f ∈ wa.sd.fields, isPhys f = true →
+      ∃ c, RFact m wa (.pres [f.name] c) ∧ RFact m wb (.pres [f.name] c) ∧
+        (c = true →
+          match f.kind with
+          | .phys _ _ (.struct _ _ _) _ =>
+            ∃ wa' wb', SubViewR m wa f.name wa' ∧ SubViewR m wb f.name wb' ∧ LogEq m k wa' wb'
+          | _ => ∃ v, RFact m wa (.val [f.name] v) ∧ RFact m wb (.val [f.name] v))
+
+/-- no physical field is an array (fragment of `C20_equals_iff_logical_nested_partial`) -/
+def noArrayFields (sd : StructDef) : Bool :=
+  sd.fields.all (fun f =>
+    match f.kind with
+    | .phys _ _ (.array _ _) _ => false
+    | _ => true)
 
 /-- field names are unique (the front end rejects duplicate names) -/
 def namesUnique (sd : StructDef) : Prop := ∀ f ∈ sd.fields, sd.field f.name = some f
